@@ -48,6 +48,18 @@ impl Qcow2Info {
             .ok_or_else(|| format!("cluster_bits={cluster_shift} is too large"))?;
         let refcount_order: u8 = h.refcount_order().try_into().unwrap();
 
+        // Every table is read and written in units of blocks, and the
+        // smallest table is one cluster: a block bigger than a cluster
+        // means requests behind the table's buffer and its clusters.
+        if block_size_shift > cluster_shift {
+            return Err(format!(
+                "block size {} is bigger than the image's cluster size {}",
+                1u64 << block_size_shift,
+                cluster_size
+            )
+            .into());
+        }
+
         // always keep at least two cache slices
         fn cache_geometry(
             param: Option<(u8, usize)>,
